@@ -394,8 +394,8 @@ func c11compare(l, r *c11side, so gedcom.SimilarityOptions, jobs, gmp int) gedco
 // c11compareWith runs Compare with a given options value (fresh, or one that already ran a comparison:
 // its sentA/sentB are never reset). A run that does not deliver is reported through c11problem.
 func c11compareWith(l, r *c11side, opts *gedcom.IndividualNodesCompareOptions, jobs, gmp int) gedcom.IndividualComparisons {
-	c11notifyTurn++ // in turn: no Notifier, an unbuffered one, a buffered one (as cmd/gedcom/diff.go: drained by the caller)
-	notify := c11notifyTurn % 3
+	c11notifyTurn++ // in turn: no Notifier, an unbuffered one, a buffered one, an unbuffered one with a slow receiver (as cmd/gedcom/diff.go: drained by the caller)
+	notify := c11notifyTurn % 4
 	out := c11run(l.indis, r.indis, opts, jobs, gmp, notify)
 	if out.problem != "" && c11problem != nil {
 		c11problem(out, jobs, gmp)
@@ -429,21 +429,29 @@ func c11run(left, right gedcom.IndividualNodes, opts *gedcom.IndividualNodesComp
 	old := runtime.GOMAXPROCS(gmp)
 	defer runtime.GOMAXPROCS(old)
 	opts.Jobs = jobs
-	out := c11outcome{notify: []string{"no Notifier", "unbuffered Notifier drained by a goroutine", "buffered Notifier (4) drained by a goroutine"}[notify]}
+	out := c11outcome{notify: []string{"no Notifier", "unbuffered Notifier drained by a goroutine", "buffered Notifier (4) drained by a goroutine",
+		"unbuffered Notifier drained by a SLOW goroutine (200 µs per value)"}[notify]}
 	var mu sync.Mutex
 	var prog []gedcom.Progress
 	closed := make(chan struct{})
 	if notify > 0 {
 		var ch chan gedcom.Progress
-		if notify == 1 {
-			ch = make(chan gedcom.Progress)
-		} else {
+		if notify == 2 {
 			ch = make(chan gedcom.Progress, 4)
+		} else {
+			ch = make(chan gedcom.Progress)
 		}
 		opts.Notifier = ch
 		opts.NotifierStep = 1
+		if nm := int64(len(left)) * int64(len(right)); nm > 2000 {
+			opts.NotifierStep = nm / 500 // large comparisons: a few hundred notifications are enough
+		}
+		slow := notify == 3
 		go func() {
 			for p := range ch {
+				if slow {
+					time.Sleep(200 * time.Microsecond)
+				}
 				mu.Lock()
 				prog = append(prog, p)
 				mu.Unlock()
@@ -561,13 +569,14 @@ func c11ambiguous(l, r *c11side) bool {
 // c11forced: a hand-built case (and the Jobs values it must be run with) for the next c11one.
 var c11forced *c11case
 var c11forcedJobs []int
+var c11forcedOpts *c12opts
 
 func c11one(c *Ctx, idx int) {
 	r := c.R
 	cs := c11gen(r)
-	forcedJobs := c11forcedJobs
+	forcedJobs, forcedOpts := c11forcedJobs, c11forcedOpts
 	if c11forced != nil {
-		cs, c11forced, c11forcedJobs = c11forced, nil, nil
+		cs, c11forced, c11forcedJobs, c11forcedOpts = c11forced, nil, nil, nil
 	}
 	l, rt := c11build(cs.left, cs.lfam, 0), c11build(cs.right, cs.rfam, 1000)
 	ids := map[*gedcom.IndividualNode]int{}
@@ -582,7 +591,9 @@ func c11one(c *Ctx, idx int) {
 	}
 	c.Count(fmt.Sprintf("size:left=%d", (len(l.indis)+3)/4*4))
 	o := c12randOpts(r)
-	if forcedJobs != nil {
+	if forcedOpts != nil {
+		o = *forcedOpts
+	} else if forcedJobs != nil {
 		o = c12opts{def: true}
 	} else if r.Chance(1, 3) { // thresholds at the extremes
 		if o.def {
@@ -713,6 +724,224 @@ func c11one(c *Ctx, idx int) {
 	}
 }
 
+// c11mixed builds a pair of documents with nl left and nr right individuals whose matches are of all
+// three kinds: every third left individual has a partner by _UID only (other pointer, nothing else in
+// common), every third a partner by pointer (same pointer, same name and dates), the others none; the
+// right side is cut or padded with strangers to nr. No two pairs score alike.
+func c11mixed(nl, nr, salt int) *c11case {
+	cs := &c11case{}
+	for x := 0; x < nl; x++ {
+		p := c11person{ptr: fmt.Sprintf("L%d", x), name: fmt.Sprintf("Abel%c%c /Lefthand%d/", 'a'+rune(x%26), 'a'+rune((x/26)%26), x),
+			birth: fmt.Sprintf("%d", 1300+x), death: fmt.Sprintf("%d", 1350+x)}
+		switch x % 3 {
+		case 0:
+			p.uids = []string{c11uid(0xF000000 + salt*1000003 + x)}
+			cs.right = append(cs.right, c11person{ptr: fmt.Sprintf("R%d", x), name: fmt.Sprintf("Zygmunt%c /Quixote%d/", 'z'-rune(x%26), x),
+				birth: fmt.Sprintf("%d", 1800+x%190), uids: p.uids})
+		case 1:
+			cs.right = append(cs.right, c11person{ptr: p.ptr, name: p.name, birth: p.birth, death: p.death})
+		}
+		cs.left = append(cs.left, p)
+	}
+	for len(cs.right) < nr {
+		x := len(cs.right)
+		cs.right = append(cs.right, c11person{ptr: fmt.Sprintf("S%d", x), name: fmt.Sprintf("Stranger%c /Unrelated%d/", 'a'+rune(x%26), x), birth: fmt.Sprintf("%d", 1000+x)})
+	}
+	if len(cs.right) > nr {
+		cs.right = cs.right[:nr]
+	}
+	return cs
+}
+
+// c11boundary: the fixed boundary corpus, run first.
+//   - numbers of individuals at Jobs-1, Jobs, Jobs+1, 2*Jobs-1, 2*Jobs+1 for Jobs in
+//     {0,1,2,3,4,5,7,8,16,17,64} (remainders of the strided division of the work), right side of the same
+//     size, one larger, empty or a single individual — through the model where the case is small (<= 35),
+//     against the sequential run and the validity oracle otherwise; 64/65/128/129/257 individuals;
+//   - Notifier nil / unbuffered / buffered / unbuffered with a slow receiver, in turn;
+//   - PreferPointerAbove and MinimumWeightedSimilarity exactly 0 and exactly 1;
+//   - the remembered unique identifiers: compare, edit a _UID in place (delete the node, add another
+//     one), compare again — against the matching of freshly decoded copies of the current documents.
+func c11boundary(c *Ctx) {
+	salt := 0
+	small := func(nl, nr int, jobs []int, o *c12opts) {
+		salt++
+		cs := c11mixed(nl, nr, salt)
+		cs.kind = []string{"boundary:sizes around Jobs (model-tied)"}
+		c11forced, c11forcedJobs, c11forcedOpts = cs, jobs, o
+		c11one(c, 2000+salt)
+	}
+	bigCanon := func(res gedcom.IndividualComparisons) string {
+		var got []string
+		for _, x := range res {
+			a, b := "_", "_"
+			if x.Left != nil {
+				a = x.Left.Pointer()
+			}
+			if x.Right != nil {
+				b = x.Right.Pointer()
+			}
+			got = append(got, a+"-"+b)
+		}
+		sort.Strings(got)
+		return strings.Join(got, " ")
+	}
+	big := func(nl, nr int, jobs []int) {
+		salt++
+		cs := c11mixed(nl, nr, salt)
+		l, rt := c11build(cs.left, "", 0), c11build(cs.right, "", 100000)
+		so := gedcom.NewSimilarityOptions()
+		ref := c11run(l.indis, rt.indis, gedcom.NewIndividualNodesCompareOptions(), 1, 1, 0)
+		want := bigCanon(ref.res)
+		in := func(j int, out c11outcome) map[string]interface{} {
+			return map[string]interface{}{"left": fmt.Sprintf("%d individuals L0..: x%%3==0 has a _UID partner R<x>, x%%3==1 a same-pointer twin, else none (c11mixed)", nl),
+				"right": fmt.Sprintf("%d individuals", nr), "jobs": j, "gomaxprocs": 4, "notifier": out.notify, "options": "default"}
+		}
+		if v := c11valid(l, rt, so, ref.res); v != "" || ref.problem != "" {
+			c.Oracle("", "boundary sizes: the sequential result is not a valid matching or is not delivered: "+c11class(v)+ref.problem, in(1, ref), v+ref.observed, "a valid one-to-one matching")
+		}
+		for q, j := range jobs {
+			c11notifyTurn++
+			out := c11run(l.indis, rt.indis, gedcom.NewIndividualNodesCompareOptions(), j, 4, (c11notifyTurn+q)%4)
+			c.Eval()
+			c.Count("boundary:sizes 64..257 x Jobs (against the sequential run)")
+			if out.problem != "" {
+				c.Oracle("", "the matching is not delivered: "+out.problem, in(j, out), out.observed, "Compare returns, closes the Notifier and reports complete progress")
+				if out.res == nil {
+					continue
+				}
+			}
+			if g := bigCanon(out.res); g != want {
+				c.Oracle("", "boundary sizes: the result differs from the sequential one (no score ties)", in(j, out), c11tail(g, 400), c11tail(want, 400))
+			}
+		}
+	}
+	for _, J := range []int{0, 1, 2, 3, 4, 5, 7, 8, 16, 17, 64} {
+		sizes := map[int]bool{}
+		for _, n := range []int{J - 1, J, J + 1, 2*J - 1, 2*J + 1} {
+			if n >= 0 {
+				sizes[n] = true
+			}
+		}
+		var ns []int
+		for n := range sizes {
+			ns = append(ns, n)
+		}
+		sort.Ints(ns)
+		for q, n := range ns {
+			nr := []int{n, n + 1, 1, 0, n}[q%5]
+			if n <= 35 {
+				small(n, nr, []int{J}, nil)
+			} else {
+				big(n, nr, []int{J, 3})
+			}
+		}
+	}
+	for _, n := range []int{64, 65, 128, 129, 257} {
+		jl := []int{2, 5, 7, 8, 16, 17, 64}
+		if n > 65 {
+			jl = map[int][]int{128: {7, 17, 64}, 129: {8, 16, 64}, 257: {16, 64}}[n]
+		}
+		big(n, n, jl)
+		big(n, 1, []int{4, 64})
+	}
+	big(1, 129, []int{2, 17})
+	// duplicate pointers: two (or three) LEFT records with the same pointer — merge outputs have them —
+	// and one right record with it, PreferPointerAbove reached (0: every pointer pair is trusted); also
+	// two right records with one pointer. The duplicates sit at varied positions, are otherwise unlike
+	// each other (no score ties), and each case is run repeatedly with several Jobs and GOMAXPROCS values:
+	// the right individual must be in exactly one result and the result must be the sequential one.
+	for q := 0; q < 10; q++ {
+		salt++
+		size := 6 + q
+		cs := c11mixed(size, size, salt)
+		i := []int{0, 1, 1, 2, 3, 0, 4, 2, 5, 1}[q]
+		j := i + 1 + q%3
+		if j >= size {
+			j = size - 1
+		}
+		// left j takes the pointer of left i; the right side has one record with that pointer
+		cs.left[j].ptr = cs.left[i].ptr
+		if q%4 == 3 && j+1 < size {
+			cs.left[j+1].ptr = cs.left[i].ptr
+		}
+		has := false
+		for x := range cs.right {
+			if cs.right[x].ptr == cs.left[i].ptr {
+				has = true
+			}
+		}
+		if !has {
+			cs.right[0].ptr, cs.right[0].uids = cs.left[i].ptr, nil
+		}
+		if q%5 == 4 { // and a duplicate pointer on the right as well
+			cs.right[len(cs.right)-1].ptr, cs.right[len(cs.right)-1].uids = cs.left[i].ptr, nil
+		}
+		cs.kind = []string{"boundary:duplicate pointers on the left (and right), PreferPointerAbove reached"}
+		o := c12opts{maxYears: c12rat{3, 1}, minSim: c12rat{733, 1000}, minWeighted: c12rat{733, 1000}, iw: c12rat{12, 16}, pw: c12rat{1, 16}, sw: c12rat{1, 16},
+			cw: c12rat{2, 16}, ratio: c12rat{1, 2}, boost: c12rat{0, 1}, prefix: 8, prefPtr: c12rat{0, 1}}
+		c11forced, c11forcedJobs, c11forcedOpts = cs, []int{2, 2, 3, 2, 8, 2, 3}, &o
+		c11one(c, 3000+q)
+	}
+	// thresholds exactly 0 and exactly 1
+	for _, pp := range []c12rat{{0, 1}, {1, 1}} {
+		for _, mw := range []c12rat{{0, 1}, {1, 1}} {
+			o := c12opts{maxYears: c12rat{3, 1}, minSim: c12rat{733, 1000}, minWeighted: mw, iw: c12rat{12, 16}, pw: c12rat{1, 16}, sw: c12rat{1, 16},
+				cw: c12rat{2, 16}, ratio: c12rat{1, 2}, boost: c12rat{0, 1}, prefix: 8, prefPtr: pp}
+			small(9, 10, []int{1, 3, 8}, &o)
+			small(7, 0, []int{2}, &o)
+			small(1, 1, []int{0, 64}, &o)
+		}
+	}
+	// history: the unique identifiers an individual remembers
+	for q := 0; q < 6; q++ {
+		salt++
+		cs := c11mixed(12, 12, salt)
+		l, rt := c11build(cs.left, "", 0), c11build(cs.right, "", 100000)
+		first := c11run(l.indis, rt.indis, gedcom.NewIndividualNodesCompareOptions(), []int{1, 8}[q%2], 4, 0)
+		// edit in place: left x loses its _UID, left y (no identifier so far) takes it over
+		x, y := l.indis[[]int{0, 3, 6}[q%3]], l.indis[[]int{2, 5, 8}[q%3]]
+		var moved string
+		for _, n := range x.Nodes() {
+			if u, ok := n.(*gedcom.UniqueIDNode); ok {
+				moved = u.Value()
+				x.DeleteNode(n)
+			}
+		}
+		if q%2 == 0 {
+			y.AddNode(gedcom.NewNode(gedcom.UnofficialTagUniqueID, moved, ""))
+		} else { // the right partner gets a new identifier as well, and y that one
+			for _, b := range rt.indis {
+				for _, n := range b.Nodes() {
+					if u, ok := n.(*gedcom.UniqueIDNode); ok && u.Value() == moved {
+						b.DeleteNode(n)
+						b.AddNode(gedcom.NewNode(gedcom.UnofficialTagUniqueID, c11uid(0xABC000+q), ""))
+					}
+				}
+			}
+			y.AddNode(gedcom.NewNode(gedcom.UnofficialTagUniqueID, c11uid(0xABC000+q), ""))
+		}
+		second := c11run(l.indis, rt.indis, gedcom.NewIndividualNodesCompareOptions(), []int{8, 1}[q%2], 4, 0)
+		fl, err1 := gedcom.NewDocumentFromString(l.doc.String())
+		fr, err2 := gedcom.NewDocumentFromString(rt.doc.String())
+		c.Eval()
+		c.Count("boundary:history compare / edit a _UID in place / compare again")
+		if err1 != nil || err2 != nil || first.res == nil || second.res == nil {
+			c.Oracle("", "unique-identifier history: a step failed", map[string]interface{}{"left": l.text}, fmt.Sprint(err1, err2, first.problem, second.problem), "all steps succeed")
+			continue
+		}
+		fresh := c11run(fl.Individuals(), fr.Individuals(), gedcom.NewIndividualNodesCompareOptions(), 1, 1, 0)
+		if g, w := bigCanon(second.res), bigCanon(fresh.res); g != w {
+			c.Oracle("", "after a _UID was edited in place the matching is not the matching of the current documents (a remembered identifier set is stale)",
+				map[string]interface{}{"left_before": l.text, "right_before": rt.text, "edit": fmt.Sprintf("%s loses its _UID %s; %s gets it (variant %d)", x.Pointer(), moved, y.Pointer(), q%2),
+					"history": "Compare, edit, Compare with fresh options"}, g, w+"  (freshly decoded copies of the current documents, sequential)")
+		}
+		if bigCanon(first.res) == bigCanon(second.res) {
+			c.Oracle("", "unique-identifier history: the edit did not change the matching (the corpus case is vacuous)", map[string]interface{}{"left": l.text}, bigCanon(second.res), "a different matching")
+		}
+	}
+}
+
 // c11dupPositions: a unique identifier duplicated among the LEFT individuals at varied positions. The
 // people have nothing else in common with anybody (names, dates, pointers), every other left individual
 // has its own partner by _UID, so the only question is which of the claimants of the shared right
@@ -773,7 +1002,7 @@ func c11dupPositions(c *Ctx) {
 // result must be the sequential matching (each left individual with the right one carrying its _UID).
 func c11cold(c *Ctx) {
 	r := c.R.Fork("cold")
-	reps := c.N(160, 3000)
+	reps := c.N(120, 3000)
 	var lt, rtx string
 	var want string
 	n := 0
@@ -993,7 +1222,8 @@ func init() {
 		c.Compare = c11cmp
 		c11skipped = func(s string) { c.Dist[s]++ }
 		c.Rule = "pairs of family-graph documents (edited copy: shared / disjoint / shifted pointers, dropped and added people, typos, identical twins, shared unique ids, a duplicated unique id, empty sides; a _UID duplicated among left individuals at varied positions i < j with j % Jobs < i % Jobs, run with those Jobs values) x options (default and random, thresholds incl. 0 and 1) x Jobs in {0,1,2,3,8,16} x GOMAXPROCS in {1,2,16}; every run goes through a delivery check (Compare in its own goroutine with a time limit; in turn no / unbuffered / buffered Notifier drained as gedcom diff does: it must be closed when Compare returns and the progress complete; empty left, empty right, both empty and single individuals included), is checked for validity, and all runs of a case are compared with the sequential one when no scores tie; cold-cache stress: documents whose only matches are _UID matches, decoded afresh for every run, Jobs {2,3,8,16} x GOMAXPROCS {2,16}, each compared with the sequential matching; large comparisons with 999..2050 result rows (one side empty; equal sides matched by _UID) under a time limit; the model is run on the sequential and on permuted arrival orders; distinct = distinct (sequential result, options)"
-		n := c.N(500, 6000)
+		c11boundary(c)
+		n := c.N(360, 6000)
 		for i := 0; i < n; i++ {
 			c11one(c, i)
 		}
